@@ -246,6 +246,31 @@ def eval_wire_choices(repo, rule, modules=None):
                 rule.violation(where, fq, term, "the wire expression bound to `%s` depends on a secret value (different arms build "
                                "different wires): later constraints mention different wires for different inputs" % name,
                                "%s/wire/%s/%s" % (fq, name, test))
+        # fresh witnesses are allocated in the same ORDER on both arms of a value-dependent test (the wire a name is bound to
+        # is its allocation index: `ret, wit` on one arm and `wit, ret` on the other swaps the wires later constraints mention)
+        by_test = {}
+        for w in assigns:
+            if not w["gov"]:
+                continue
+            tid, ttxt, pol = w["gov"][-1]
+            if not any(a in norm(w["value"]) for a in ("PrivVal(", "PrivValBool(", "PrivValFxp(", "PubVal(")):
+                continue
+            by_test.setdefault((tid, ttxt), {True: [], False: []})[pol].append(w)
+        order_of = {id(x): i for i, x in enumerate(ast.walk(fi.node))}
+        for (tid, ttxt), arms in sorted(by_test.items(), key=lambda kv: kv[0][1]):
+            seq = {}
+            for pol in (True, False):
+                ws_ = sorted(arms[pol], key=lambda w: order_of.get(id(w["stmt"]), 0))
+                seq[pol] = [w["name"] for w in ws_]
+            if seq[True] and seq[False] and sorted(seq[True]) == sorted(seq[False]) and len(set(seq[True])) == len(seq[True]):
+                where = fi.loc(arms[True][0]["stmt"])
+                term = "under `%s`: allocation order %s when true, %s when false" % (ttxt, seq[True], seq[False])
+                if seq[True] == seq[False]:
+                    rule.ok(where, fq, term, "fresh witnesses allocated in the same order on both arms")
+                else:
+                    rule.violation(where, fq, term, "fresh witnesses are allocated in a value-dependent order: the same names are bound "
+                                   "to different wire numbers for different inputs, so the constraints mention different wires",
+                                   "%s/wire/alloc-order/%s" % (fq, ttxt))
         if len(rets) > 1:
             sk = {}
             for w in rets:
